@@ -527,7 +527,7 @@ func scenarios(thorough bool) []runner.Scenario {
 	}
 	return []runner.Scenario{
 		{Name: "fetch-vs-rollover", Body: fetchRace(false, false), P: p, Shards: sh, Horizon: 200000},
-		{Name: "two-fetchers-vs-rollover", Body: fetchRace(true, false), P: p, Shards: sh, Horizon: 200000},
+		{Name: "two-fetchers-vs-rollover", Body: fetchRace(true, false), P: p, Shards: sh, Horizon: 200000, FineCap: 2}, // at 3 statement-level deviations this scenario alone takes 20 min
 		{Name: "fetch-vs-rollover-disk", Body: fetchRace(false, true), P: p, Shards: sh, Horizon: 200000},
 	}
 }
@@ -544,7 +544,7 @@ func main() {
 	endToEnd(rep)
 	runner.FineP = 2 // statement-level points in the files of fine.txt
 	if rep.Thorough() {
-		runner.FineP = 2
+		runner.FineP = 3
 	}
 	runner.Run(rep, scenarios(rep.Thorough()))
 	rep.Finish()
